@@ -53,6 +53,7 @@ type Tape struct {
 	Msg       string     `json:"msg,omitempty"`
 	KnownID   string     `json:"known_finding,omitempty"`
 	Solver    string     `json:"solver"`
+	UsesClock bool       `json:"uses_clock"`
 }
 
 type Event struct {
@@ -141,6 +142,7 @@ type Engine struct {
 	anyOrder    bool
 	clockPinned bool
 	fmtLenient  bool
+	usedClock   bool
 	gzWriters   map[*Backing]*gzW
 	gzReaders   map[*Backing]*gzR
 	gzSpin      int
@@ -569,6 +571,7 @@ func (e *Engine) mkTape(kind, label string, m Model, msg string) *Tape {
 		t.Draws = append(t.Draws, TapeDraw{Kind: d.Kind, Name: d.Name, V: v})
 	}
 	t.Sched = append([]int{}, e.sched...)
+	t.UsesClock = e.usedClock
 	return t
 }
 
@@ -712,6 +715,7 @@ func (e *Engine) RunPath(entry *ssa.Function, item WorkItem) (res *PathResult) {
 	e.ghost = map[string]Value{}
 	e.anyOrder = false
 	e.clockPinned = false
+	e.usedClock = false
 	e.syncMaps = nil
 	e.gzWriters, e.gzReaders, e.gzSpin = nil, nil, 0
 	e.shared = map[*Backing]bool{}
